@@ -4,7 +4,7 @@ from __future__ import annotations
 import ast
 
 from ..core import AnalysisError
-from ..grouping import GroupFacts
+from ..groupsx import GroupModel
 from . import grouprules as gr
 from . import nameres
 from .joinrules import content_writes
@@ -24,9 +24,9 @@ def run(ctx) -> None:
     st = {}
 
     def build():
-        st["a"] = GroupFacts(ctx.prog, "aggregate")
+        st["a"] = GroupModel(ctx.prog, "aggregate")
         try:
-            st["w"] = GroupFacts(ctx.prog, "window")
+            st["w"] = GroupModel(ctx.prog, "window")
         except Exception as e:
             # window's structure is not recognised: fall back to the sibling comparison with aggregate's partition loop
             _partition_sibling_fallback(ctx, st["a"], str(e))
@@ -42,15 +42,13 @@ def run(ctx) -> None:
             raise AnalysisError(w.partition_error)
         probs = w.partition_problems()
         ctx.ob("a.partition", w.f, "partition", not probs, "rows partitioned in row order; row_keys[i] is row i's group key",
-               probs[0][1] if probs else w.part_loop, message="window: " + "; ".join(p for p, _ in probs))
+               probs[0][1] if probs else w.f.node, message="window: " + "; ".join(p for p, _ in probs))
     ctx.section("partition", part)
     ctx.section("expansion", gr.expansion, ctx, w, "b.expansion")
     ctx.section("flow", gr.group_value_flow, ctx, w, "b.expansion")
 
     def outputs():
-        for name, b in w.blocks.items():
-            ctx.ob("b.outputs", w.f, name, not b.problems, f"{name}: output = expand_to_rows(group values of its own column)", b.guard,
-                   message=f"window({name}=...): " + "; ".join(b.problems))
+        gr.outputs(ctx, w, "b.outputs")
     ctx.section("outputs", outputs)
     ctx.section("keys", gr.key_columns, ctx, w, "c.key-columns")
     ctx.section("exit", gr.single_exit, ctx, w, "c.key-columns")
@@ -80,24 +78,10 @@ def run(ctx) -> None:
 
 
 def _partition_sibling_fallback(ctx, a, why: str) -> None:
-    from .joinrules import _canon
-    from ..core import short
     f = ctx.prog.func("table.Table.window")
-    ref = _canon([a.part_loop])
-    best = None
-    for st in f.body:
-        if isinstance(st, ast.For):
-            import copy
-            lp = copy.deepcopy(st)
-            # drop the row-key bookkeeping statement `row_keys[i] = key`
-            lp.body = [x for x in lp.body if not (isinstance(x, ast.Assign) and isinstance(x.targets[0], ast.Subscript)
-                                                  and isinstance(x.value, ast.Name))]
-            if _canon([lp]) == ref:
-                best = st
-    ctx.ob("a.partition", f, "partition", best is not None, "window's partition loop is alpha-equal to aggregate's", f.node,
-           message=f"window does not partition the rows the way aggregate does (no loop of window is equal to aggregate's partition "
-                   f"loop, and its own structure is not recognised: {why}); rows would not receive the value aggregate computes for "
-                   f"their group")
+    ctx.ob("a.partition", f, "partition", False, "", f.node,
+           message=f"window does not partition the rows the way aggregate does (its own structure is not recognised: {why}); rows would "
+                   f"not receive the value aggregate computes for their group")
 
 
 _T = "table"
